@@ -14,7 +14,11 @@ focus = ''
 if rnd:
     k = (ord(rnd[0]) - ord('a')) % len(mechs)
     m = mechs[k]
-    if rnd[0] >= 'k':
+    if rnd[0] >= 'l':
+        k = (ord(rnd[0]) - ord('a') + 9) % len(mechs)
+        m = mechs[k]
+        focus = '\n  Focus: put your change in or around this mechanism of the implementation: %s (%s). Prefer a fault that appears only when TWO instances of the same kind of object are in use at once and come to share something they should not (a buffer, a cursor or position, a cache entry or key, a counter, a flag, a saved value): two open files or file numbers, two arrays, two strings with the same content or one a substring of the other, two variables whose names differ only in sigil or length, two nested or consecutive loops on the same variable, two DEF FN functions with the same parameter name or one calling the other, two screen pages or viewports, two event traps, two DATA statements or lines, two programs chained or merged. One instance alone, or two that never overlap in time, must behave exactly as before.' % (m.get('name'), m.get('where'))
+    elif rnd[0] >= 'k':
         k = (ord(rnd[0]) - ord('a') + 8) % len(mechs)
         m = mechs[k]
         focus = '\n  Focus: put your change in or around this mechanism of the implementation: %s (%s). Prefer a fault in what happens when the input is INVALID, out of range or refused: the wrong error code for a particular kind of bad input, an error raised for a value that is still legal or not raised for one that is just illegal (a limit moved by one, a check applied to the value after a conversion has rounded, truncated or wrapped it into range, a check on the wrong one of two arguments), an error raised AFTER a side effect that should not have happened or BEFORE one that should (so that the refused statement leaves a trace, or an accepted one loses part of its effect), or a check that only one of two spellings / entry points of the same operation performs. Everything that is valid and well inside the limits must behave exactly as before.' % (m.get('name'), m.get('where'))
